@@ -1,11 +1,11 @@
 //! cwe_conf: conformance harness.  Generates inputs, calls the REAL cwe_checker code, records
 //! ndjson traces for TLC.  It never decides a property.
 mod cfgenc;
+mod domenc;
 mod enc;
 mod guard;
 mod irenc;
 mod irgen;
-mod domenc;
 mod pigen;
 mod pcodegen;
 mod penc;
@@ -16,6 +16,7 @@ mod par;
 mod walkgen;
 mod walkrun;
 mod exprgen;
+mod ivgen;
 mod out;
 mod props;
 mod rng;
@@ -35,6 +36,8 @@ fn main() {
     // a panic of code under test is data: silence the default hook output
     // (CWE_CONF_DEBUG / VERIF_PANIC_TRACE / VERIF_DEBUG keep the default hook, to debug the harness itself)
     if std::env::var_os("CWE_CONF_DEBUG").is_none() && std::env::var("VERIF_PANIC_TRACE").is_err() && std::env::var("VERIF_DEBUG").is_err() {
+    // (set VERIF_SHOW_PANICS=1 to see them while developing a generator)
+    if std::env::var("VERIF_SHOW_PANICS").is_err() {
         std::panic::set_hook(Box::new(|_| {}));
     }
     let mut seed = 1u64;
